@@ -560,6 +560,7 @@ class Stream:
         self.samples = []
         self.prefix = viol_prefix
         self.fingerprint = gen.fingerprint
+        self.rejected_pool = []     # candidates refused earlier: offered again later (the verdict must not depend on history)
 
     def v(self, key, msg, w):
         if sum(1 for x in self.viol if x["key"] == key) < 3:
@@ -630,6 +631,8 @@ class Stream:
                 self.post_accept(world, rblk, w or None, cls, now)
         else:
             c["rejected"] += 1
+            if not cls.endswith("@re-offered") and len(self.rejected_pool) < 400:
+                self.rejected_pool.append((rblk, now, cls))
             reason = "%s: %s" % (type(exc).__name__, re.sub(r"[0-9a-f]{8,}", "#", str(exc))[:70])
             c["rejection_reasons"][reason] = c["rejection_reasons"].get(reason, 0) + 1
             if not codes:
@@ -647,6 +650,16 @@ class Stream:
     def post_accept(self, world, rblk, w, cls, now):
         pass
 
+    def reoffer(self, world, rng, n=1):
+        """a candidate refused earlier is offered again (immediately-after and much-later cases both arise)"""
+        for _ in range(n):
+            live = [x for x in self.rejected_pool if x[0].prev in world.chain.blocks or True]
+            if not live:
+                return
+            rblk, now, cls = rng.choice(live[-40:]) if rng.random() < 0.7 else rng.choice(live)
+            self.c["reoffered"] = self.c.get("reoffered", 0) + 1
+            self.attempt(world, rblk, now, cls + "@re-offered")
+
     def followup(self, world, rng):
         """after rejections the receiver must still accept a valid block"""
         pid = world.cs.current_chain_hash
@@ -656,6 +669,7 @@ class Stream:
             self.c["followup_valid_accepted"] += 1
 
     def run_world(self, rng, classes, nblocks, ncand, bad_key_prob=0.15, params=None):
+        self.rejected_pool = []
         world = gen.World(rng, params=params)
         world.bad_key_prob = bad_key_prob
         world.grow(nblocks, rng, tx_prob=0.7)
@@ -673,6 +687,8 @@ class Stream:
             rblk, must, may = built
             now = rblk.ts + rng.choice([-30, -29, 0, 1, 3600])
             self.attempt(world, rblk, now, cls, must, may)
+            if rng.random() < 0.35:
+                self.reoffer(world, rng)
             if k % 9 == 8:
                 self.followup(world, rng)
             if k % 5 == 4:
